@@ -215,6 +215,32 @@ def record_traces(chk, th, sources, calls, runs_per_prog, seed, style="mixed", m
     return execs
 
 
+def record_walks(chk, th, sources, max_states, tag="walk"):
+    """Exhaustive walks of the real VM's reachable state graph (th vmwalk), one per program small enough; returns (execs, stats)."""
+    jobs = [dict(src, p=p, max_states=max_states) for p, (name, src) in enumerate(sources, 1)]
+    execs, stats = [], []
+    for recs, rc, err, part in parallel_th(th, ["vmwalk"], jobs, chunks=len(jobs), timeout=1800):
+        if rc != 0:
+            bad = [r for r in recs if "hang" in r]
+            if bad:
+                chk.violation("%s:hang" % tag, "real VM did not return from a call during the exhaustive walk", {"program": part[0]})
+            else:
+                _abort_violation(chk, tag, rc, err, recs)
+            continue
+        cur = None
+        for r in recs:
+            if r.get("e") == "load":
+                cur = [r]
+            elif "walk" in r:
+                stats.append(r)
+                if r["complete"] and cur is not None:
+                    execs.append(cur)
+                cur = None
+            elif "e" in r and cur is not None:
+                cur.append(r)
+    return execs, stats
+
+
 def _abort_violation(chk, tag, rc, err, recs):
     kind = "sanitizer" if ("Sanitizer" in err or "runtime error" in err) else "crash"
     chk.violation("%s:abort:%s" % (tag, kind), "harness process aborted (rc=%s, %s) while driving the real VM:\n%s"
